@@ -9,6 +9,7 @@ def natList? (s : String) : Option (List Nat) :=
 
 /-- payload:
   `sched <cell0> <clocks of thread 0>|<clocks of thread 1>|… <schedule>`  (lists `a,b,c` or `-`)
+  `repub <threads> <calls> <seed> <dups> <tasks>` — end-to-end republish run (see Republish.lean)
   `stress <threads> <calls>`   — free-running threads on the real clock; the model's prediction is
                                  that every call returns (no panic far below `u64::MAX`). -/
 def handleLine (payload : String) : String :=
@@ -19,6 +20,12 @@ def handleLine (payload : String) : String :=
       if c0 ≤ cellMax ∧ clocks.all (·.all (· ≤ cellMax)) then render (runCase c0 clocks sched)
       else "bad-input"
     | _, _, _ => "bad-input"
+  | ["repub", th, calls, _seed, _dups, _tasks] =>
+    -- Republish.last_published_wins: the store ends with the real-time-last publication (the
+    -- `final` one, published after all threads returned) and the lookup decodes to it
+    match th.toNat?, calls.toNat? with
+    | some th, some calls => s!"repub published={th * calls + 1} stored=final decoded=final"
+    | _, _ => "bad-input"
   | ["stress", th, calls] =>
     match th.toNat?, calls.toNat? with
     | some th, some calls => s!"stress returned={th * calls} panics=0"
